@@ -99,6 +99,12 @@ type Op struct {
 	Ring   int        `json:"ring,omitempty"`
 	Prefix string     `json:"prefix,omitempty"`
 	Cap    int        `json:"cap,omitempty"`
+	// Reuse: AppendJSON into the caller's own long-lived buffer
+	// (buf = o.AppendJSON(buf[:0]), the standard idiom; the first call passes nil).
+	// Scribble: the caller overwrites the bytes it was given once it has read them.
+	// Both are legal: the returned slice is the caller's memory.
+	Reuse    bool `json:"reuse,omitempty"`
+	Scribble bool `json:"scribble,omitempty"`
 	CB     *CB        `json:"cb,omitempty"`
 }
 
